@@ -235,8 +235,8 @@ def self_test():
 
 
 LAWS = [
-    given_law("dft1", sig1(False), body_1d, {"quick": 600, "thorough": 4000}),
-    given_law("dft2", sig1(True), body_2d, {"quick": 400, "thorough": 2500}),
-    given_law("gaussian", gauss_cases(), gauss_body, {"quick": 300, "thorough": 1500}),
-    given_law("real", real_cases(), real_body, {"quick": 400, "thorough": 2500}),
+    given_law("dft1", sig1(False), body_1d, {"quick": 600, "thorough": 10000}, shards={"quick": 3, "thorough": 16}),
+    given_law("dft2", sig1(True), body_2d, {"quick": 400, "thorough": 6250}, shards={"quick": 3, "thorough": 16}),
+    given_law("gaussian", gauss_cases(), gauss_body, {"quick": 300, "thorough": 3750}, shards={"quick": 3, "thorough": 16}),
+    given_law("real", real_cases(), real_body, {"quick": 400, "thorough": 6250}, shards={"quick": 3, "thorough": 16}),
 ]
